@@ -1160,13 +1160,21 @@ class Executor:
                     out.append(Res(s, None, vs))
                     continue
                 kwnames = [k.arg for k in e.keywords]
-                if any(k is None for k in kwnames):
-                    raise Unsupported("**kwargs call")
                 for (s2, kvs) in self.ev_many([k.value for k in e.keywords], s):
                     if isinstance(kvs, SExc):
                         out.append(Res(s2, None, kvs))
                         continue
-                    out += self.call(fv, s2, vs, dict(zip(kwnames, kvs)), e)
+                    kw = {}
+                    for nme, val in zip(kwnames, kvs):
+                        if nme is None:
+                            # f(**d): d must be a literal dict with string keys
+                            od = s2.obj(val) if isinstance(val, Ref) else None
+                            if not isinstance(od, HDict) or od.dyn is not None or not all(isinstance(k2, str) for k2 in od.items):
+                                raise Unsupported("**kwargs call with a non-literal mapping")
+                            kw.update(od.items)
+                        else:
+                            kw[nme] = val
+                    out += self.call(fv, s2, vs, kw, e)
         return out
 
     LOG_METHODS = ("debug", "info", "warning", "error", "critical", "exception")
